@@ -17,7 +17,7 @@ Definition chk_reproduce_affine (e : elem) : bool :=
             (pe_subst (phys_point e) (mono v)))
    (ElemDefs.exps (edim e) (eorder e)).
 Lemma all_reproduce_affine : forallb chk_reproduce_affine all_elems = true.
-Proof. vm_compute. reflexivity. Qed.
+Proof. vm_cast_no_check (eq_refl true). Qed.
 
 (* (a)  sum_i N_i(xi) m_v(X_i) = m_v(x(xi))  for all xi, O, A and |v| <= order *)
 Theorem eval_reproduces : forall e, In e all_elems ->
@@ -39,7 +39,7 @@ Definition lin_field (x : pvec) : PExpr Q := PEadd fa (pdot fb x).
 Definition chk_interp_linear (e : elem) : bool :=
   pe_eqb (interp_expr (map (fun i => lin_field (node_vec i)) (seq 0 (List.length (eN e)))) (eN e)) (lin_field (xmap e)).
 Lemma all_interp_linear : forallb chk_interp_linear all_elems = true.
-Proof. vm_compute. reflexivity. Qed.
+Proof. vm_cast_no_check (eq_refl true). Qed.
 Theorem interp_linear : forall e, In e all_elems -> forall l : list R,
   Reval l (interp_expr (map (fun i => lin_field (node_vec i)) (seq 0 (List.length (eN e)))) (eN e)) = Reval l (lin_field (xmap e)).
 Proof. intros e He l. exact (Qnorm_sound l _ _ (forallb_In _ _ all_interp_linear e He)). Qed.
